@@ -203,6 +203,11 @@ M("tp21_abort_matched_without_pgn", ["C10"], "D42 reverted (J1939-21): abort mat
   ("j1939/j1939_21.py", "self._snd_buffer[buffer_hash]['pgn'] == pgn and ", ""))
 M("tp22_abort_matched_without_pgn", ["C10"], "D42 reverted (J1939-22): abort matched by address pair and session number only",
   ("j1939/j1939_22.py", "self._snd_buffer[buffer_hash]['pgn'] == pgn and ", ""))
+M("dm1_notify_rereads_attributes", ["C16"], "D49 reverted: _notify_subscribers re-reads the attributes for every subscriber",
+  ("j1939/diagnostic_messages.py", "            callback(sa, lamp_status.copy(), [dict(dtc_dic) for dtc_dic in dtc_dic_list], timestamp)",
+   "            callback(sa, self._lamp_status.copy(), [dict(dtc_dic) for dtc_dic in self._dtc_dic_list], timestamp)"))
+M("dm1_subscribers_share_code_dicts", ["C16"], "D50 reverted: the code dicts are shared between the subscribers",
+  ("j1939/diagnostic_messages.py", "[dict(dtc_dic) for dtc_dic in dtc_dic_list], timestamp)", "dtc_dic_list.copy(), timestamp)"))
 M("dm1_stop_during_callback_ignored", ["C16"], "D43 reverted: _send does not look at the cycle's active flag",
   ("j1939/diagnostic_messages.py", "        if not cookie.get('active', True):", "        if False:"))
 M("tp21_abort_no_wakeup", ["C10"], "D45 reverted (J1939-21): no job-thread wake-up after a peer abort",
